@@ -4,7 +4,8 @@
 EXTENDS CDS, Lift, Json, IOUtils, TLC
 Trace == ndJsonDeserialize(IOEnv.TRACE_FILE)
 Ok(b, name) == IF b THEN "ok" ELSE name
-Soft == {"ok", "chunk-codons:single-exon-offset", "aggregate-identifier:from-chunk-location"}
+Soft == {"ok", "chunk-codons:single-exon-offset", "aggregate-identifier:from-chunk-location",
+         "chunk:from-chunk-relative-location-refuses-touching-blocks"}
 FirstBad(seq) == IF \E i \in DOMAIN seq : seq[i] \notin Soft
                  THEN seq[CHOOSE i \in DOMAIN seq : seq[i] \notin Soft /\ \A j \in 1..(i - 1) : seq[j] \in Soft]
                  ELSE IF \E i \in DOMAIN seq : seq[i] # "ok" THEN seq[CHOOSE i \in DOMAIN seq : seq[i] # "ok"] ELSE "ok"
@@ -14,13 +15,28 @@ CodonLocsAre(locs, triples, st) ==
 ToFrame(phase) == (3 - phase) % 3
 FlatCodons(cs) == FlattenSeq(cs)
 
+RECURSIVE MergeTouchingBlocks(_)
+MergeTouchingBlocks(bs) ==
+  IF Len(bs) <= 1 THEN bs
+  ELSE IF bs[1][2] = bs[2][1] THEN MergeTouchingBlocks(<<<<bs[1][1], bs[2][2]>>>> \o SubSeq(bs, 3, Len(bs)))
+  ELSE <<bs[1]>> \o MergeTouchingBlocks(Tail(bs))
 (* ["twin", exons, cds|EMPTY, frames, R, ws, we, route, ctor,
     sameDict, sameGuid, chromLoc, chunkLocBack, spliced,
     numCodons, chromCodons, chunkCodonsBack, numChunkCodons, cdsSeq, protein] *)
 VTwin(ev) ==
   LET ex == ev[2] cdsl == ev[3] fr == ev[4] R == ev[5] ws == ev[6] we == ev[7] st == St(ex)
       inside == InWindowBases(ex, ws, we) coding == ~IsEmptyLoc(cdsl) IN
-  IF ~IsVal(ev[9]) THEN "chunk:constructs"
+  \* named deviation (keyed known finding): from_chunk_relative_location lifts the chunk-relative location back to the
+  \* chromosome, the lift merges TOUCHING blocks, and the rebuilt CDS then has fewer blocks than frames -> refused
+  IF ~IsVal(ev[9]) /\ ev[8] = "from-chunk-relative" /\ ev[9][2] = "InvalidCDSIntervalError" /\ coding
+       /\ (\E i \in 1..(NB(cdsl) - 1) : cdsl[1][i][2] = cdsl[1][i + 1][1])
+  THEN "chunk:from-chunk-relative-location-refuses-touching-blocks"
+  \* ... and touching EXON blocks come back merged (same bases and strand, another block structure, hence another
+  \* dictionary form and identifier): exactly the merged structure is the known deviation, anything else is judged
+  ELSE IF IsVal(ev[9]) /\ ev[8] = "from-chunk-relative" /\ (\E i \in 1..(NB(ex) - 1) : ex[1][i][2] = ex[1][i + 1][1])
+          /\ IsVal(ev[12]) /\ ev[12][2] = <<MergeTouchingBlocks(ex[1]), st>>
+  THEN "chunk:from-chunk-relative-location-refuses-touching-blocks"
+  ELSE IF ~IsVal(ev[9]) THEN "chunk:constructs"
   ELSE FirstBad(<<
     Ok(ev[10] = TRUE, "same-dictionary-form"),
     Ok(ev[11] = TRUE, "same-identifier"),
@@ -62,7 +78,7 @@ VTwin(ev) ==
     >>)
   >>)
 (* ["agg", kind, route, ctor, ws, we, exons (of the longest child), R,
-    sameDict, sameGuid, <<start, end>>, chunkLocBack, referenceSequence, sameDictButOwnGuid] : a gene / feature collection / annotation
+    sameDict, sameGuid, <<start, end>>, chunkLocBack, referenceSequence, sameDictButOwnGuid, chunkOnMinusStrand] : a gene / feature collection / annotation
    collection built on the chunk against its whole-chromosome twin.  Its span is that of the longest child. *)
 VAgg(ev) ==
   LET ws == ev[5] we == ev[6] ex == ev[7] R == ev[8] lo == MinStart(ex) hi == MaxEnd(ex)
@@ -72,9 +88,9 @@ VAgg(ev) ==
     \* the aggregate classes digest their CHUNK-RELATIVE location into their own identifier (keyed known finding): the
     \* soft clause applies only when the chunk really moves or cuts that location and nothing else differs
     IF ev[9] = TRUE THEN "ok"
-    ELSE IF ev[14] = TRUE /\ (ws > 0 \/ we < hi) THEN "aggregate-identifier:from-chunk-location" ELSE "same-dictionary-form",
+    ELSE IF ev[14] = TRUE /\ (ws > 0 \/ we < hi \/ ev[15]) THEN "aggregate-identifier:from-chunk-location" ELSE "same-dictionary-form",
     IF ev[10] = TRUE THEN "ok"
-    ELSE IF ev[14] = TRUE /\ (ws > 0 \/ we < hi) THEN "aggregate-identifier:from-chunk-location" ELSE "same-identifier",
+    ELSE IF ev[14] = TRUE /\ (ws > 0 \/ we < hi \/ ev[15]) THEN "aggregate-identifier:from-chunk-location" ELSE "same-identifier",
     Ok(IsVal(ev[11]) /\ ev[11][2] = <<lo, hi>>, "same-chromosome-blocks"),
     IF ilo >= ihi THEN Ok(IsVal(ev[12]) /\ IsEmptyLoc(ev[12][2]), "outside-chunk-is-empty")
     ELSE Ok(IsVal(ev[12]) /\ ~IsEmptyLoc(ev[12][2]) /\ PosSet(ev[12][2]) = ilo..(ihi - 1), "chunk-location-lifts-back"),
